@@ -72,6 +72,9 @@ ASSUMPTIONS = [
     "a callback object shared by two hold-time registrations (one per state of one switch, same ms) is attributed "
     "to the registration named by return_info's state argument, else to the state of the last report (a hold-time "
     "handler can only be due for the state the switch is in); removing one of the two must not silence the other",
+    "about 30 % of the switches run with device debug logging (debug: true, console_log: full or file_log: full); "
+    "every clause is the same for them (behaviour must not depend on the log level); all configured event names "
+    "have a listener, so 'posted once' is counted as deliveries on the bus",
     "hw_state (raw state, from the anchors/Switch docstring, not the statement) is compared only after the "
     "switch's first real change in the case, because boot never initialises it",
     "switches with ignore_window_ms>0 are checked against the recycle rule (one post when a window opens, a "
@@ -135,7 +138,10 @@ def _gen_switches(rng):
     out = []
     for i in range(n):
         s = {"nc": rng.random() < 0.45, "start": rng.random() < 0.25, "iw": 0, "tags": [], "on": [], "off": [],
-             "on_t": [], "off_t": []}
+             "on_t": [], "off_t": [], "dbg": None}
+        if rng.random() < 0.3:
+            # debug logging of the device: what the switch does must not depend on its log level
+            s["dbg"] = rng.choice(["debug", "debug", "debug", "console", "file"])
         if i == iw_idx:
             s["iw"] = rng.choice([100, 300])
             if rng.random() < 0.5:
@@ -461,7 +467,7 @@ class _Rt:
                    "removed_silent": 0, "events_once": 0, "recycle_events": 0, "no_crash": 0, "cb_args": 0}
         self.obs = {"reports": 0, "real_changes": 0, "duplicate_reports": 0, "raw_reports": 0, "nc_reports": 0,
                     "adds": 0, "adds_timed_in_state": 0, "removes": 0, "removes_of_pending": 0,
-                    "ops_in_callbacks": 0, "mute_ops": 0, "changes_while_muted": 0, "muted_change_ends_pending_hold": 0, "twin_registrations": 0, "twin_removed_while_other_pending": 0, "ops_in_event_handlers": 0, "ops_scheduled": 0, "fires_untimed": 0, "fires_timed": 0,
+                    "ops_in_callbacks": 0, "switches_with_debug_logging": 0, "events_once_evals_on_debug_switches": 0, "mute_ops": 0, "changes_while_muted": 0, "muted_change_ends_pending_hold": 0, "twin_registrations": 0, "twin_removed_while_other_pending": 0, "ops_in_event_handlers": 0, "ops_scheduled": 0, "fires_untimed": 0, "fires_timed": 0,
                     "events_seen": 0, "timers_scheduled_in_the_past": 0, "timed_must_fire": 0, "timed_must_not_fire": 0, "timed_either": 0,
                     "timed_mid_interval_adds_decided": 0, "advances": 0}
         self.tr = []
@@ -519,6 +525,13 @@ class _Rt:
                 d["tags"] = ", ".join(s["tags"])
             if s["iw"]:
                 d["ignore_window_ms"] = int(s["iw"])
+            dbg = s.get("dbg")
+            if dbg == "debug":
+                d["debug"] = True
+            elif dbg == "console":
+                d["console_log"] = "full"
+            elif dbg == "file":
+                d["file_log"] = "full"
             on = list(s["on"])
             off = list(s["off"])
             for ms in s["on_t"]:
@@ -948,6 +961,8 @@ class _Rt:
             self.sw = [self.m.switches["s%d" % i] for i in range(self.n)]
             self.mstate = [int(s.state) for s in self.sw]
             self.init_state = list(self.mstate)
+            self.debug_sw = set(i for i, s in enumerate(self.sw) if getattr(s, "_debug", False))
+            self.obs["switches_with_debug_logging"] += len(self.debug_sw)
             self.last_rep = [None] * self.n
             for name in list(self.ev_src) + [e[0] for e in self.ev_timed]:
                 self.events[name] = []
@@ -1220,6 +1235,8 @@ class _Rt:
                 for ch in self.changes[i]:
                     if ch["new"] == st and not ch["muted"]:      # a muted change dispatches nothing, also no events
                         exp[_bk(ch["t"])] = exp.get(_bk(ch["t"]), 0) + 1
+                        if i in self.debug_sw:
+                            self.obs["events_once_evals_on_debug_switches"] += 1
             got = {}
             for q, t in seen:
                 got[_bk(t)] = got.get(_bk(t), 0) + 1
@@ -1343,6 +1360,7 @@ class _Rt:
 
 def _shape(case):
     sw = "".join(("C" if s["nc"] else "O") + ("a" if s["start"] else "") + ("w" if s["iw"] else "") +
+                 ("d" if s.get("dbg") else "") +
                  str(len(s["tags"])) for s in case["switches"])
     out = []
     for op in case["ops"][:160]:
